@@ -29,7 +29,7 @@ impl Ser {
             Term::Op(o) => { let a = self.term(&*o.fst); let b = self.term(&*o.snd);
                 self.push(json!({"k": "op", "prd": true, "fst": a, "op": opname(&o.op), "snd": b, "ty": "i64"})) }
             Term::Mu(m) => { let s = self.stmt(&m.statement);
-                self.push(json!({"k": "mu", "prd": m.prdcns.is_prd(), "var": key(&m.variable), "ty": ty(&m.ty), "stmt": s})) }
+                self.push(json!({"k": "mu", "prd": m.prdcns.is_prd(), "var": key(&m.variable), "varid": m.variable.id, "ty": ty(&m.ty), "stmt": s})) }
             Term::Xtor(x) => { let args = self.args(&x.args);
                 self.push(json!({"k": "xtor", "prd": x.prdcns.is_prd(), "name": x.name.name, "args": args, "ty": ty(&x.ty)})) }
             Term::XCase(x) => {
@@ -65,7 +65,7 @@ impl Ser {
             FsTerm::Op(o) => { let a = self.var(true, &o.fst, &Ty::I64); let b = self.var(true, &o.snd, &Ty::I64);
                 self.push(json!({"k": "op", "prd": true, "fst": a, "op": opname(&o.op), "snd": b, "ty": "i64"})) }
             FsTerm::Mu(m) => { let s = self.fs_stmt(&m.statement);
-                self.push(json!({"k": "mu", "prd": m.prdcns.is_prd(), "var": key(&m.variable), "ty": ty(&m.ty), "stmt": s})) }
+                self.push(json!({"k": "mu", "prd": m.prdcns.is_prd(), "var": key(&m.variable), "varid": m.variable.id, "ty": ty(&m.ty), "stmt": s})) }
             FsTerm::Xtor(x) => { let args = self.fs_ctx_args(&x.args);
                 self.push(json!({"k": "xtor", "prd": x.prdcns.is_prd(), "name": x.name.name, "args": args, "ty": ty(&x.ty)})) }
             FsTerm::XCase(x) => {
